@@ -39,7 +39,7 @@ var psTypeSrc = map[string]string{"scalar": "int", "slice": "[]string", "map": "
 	"error": "error", "iface": "fmt.Stringer", "sub": "Sub2",
 	"subB": "Sub2"} // subB: a second field of the type that "sub" has - never replaced
 
-var psTagSrc = map[string]string{"none": "", "json": `json:"f%d,omitempty"`, "dotted": `json:"meta.name%d,omitempty" yaml:"x.y"`, "odd": `any text: "q" 100%%v @name 'x' %d é`}
+var psTagSrc = map[string]string{"none": "", "json": `json:"f%d,omitempty"`, "dotted": `json:"meta.name%d,omitempty"   yaml:"x.y"	default:"two  words"`, "odd": `any text: "q" 100%%v @name 'x' %d é`}
 
 const psReplTag = `json:"replaced,omitempty" x:"1"`
 
@@ -51,6 +51,19 @@ func psAliasOrigin(j int, pc psCase) bool {
 	for _, k := range pc.Origin {
 		if k == "sub" || k == "subB" {
 			return false
+		}
+	}
+	return true
+}
+
+// psDotImport: every fourth ungrouped, well-formed case names its origin through a dot import (`type x T`).
+func psDotImport(j int, pc psCase) bool {
+	if j%4 != 1 || pc.ErrShape != "none" {
+		return false
+	}
+	for _, k := range pc.Origin {
+		if k == "sub" {
+			return false // (those cases may be written as a parenthesised group)
 		}
 	}
 	return true
@@ -78,7 +91,13 @@ func psSources(j int, pc psCase) (origin, partial, probe string) {
 	}
 	o.WriteString("}\n")
 	var p strings.Builder
-	fmt.Fprintf(&p, "// Package s%d holds the partial declaration.\npackage s%d\n\nimport o%d \"example.com/ps/o%d\"\n\n", j, j, j, j)
+	dot := psDotImport(j, pc)
+	if dot {
+		// the origin package is dot-imported: the declaration names the origin with a plain identifier
+		fmt.Fprintf(&p, "// Package s%d holds the partial declaration.\npackage s%d\n\nimport . \"example.com/ps/o%d\"\n\nvar _ Scalar\n\n", j, j, j)
+	} else {
+		fmt.Fprintf(&p, "// Package s%d holds the partial declaration.\npackage s%d\n\nimport o%d \"example.com/ps/o%d\"\n\n", j, j, j, j)
+	}
 	switch pc.ErrShape {
 	case "notStruct":
 		p.WriteString("// +gengo:partialstruct\ntype x int\n")
@@ -130,6 +149,8 @@ func psSources(j int, pc psCase) (origin, partial, probe string) {
 		}
 		if grouped {
 			fmt.Fprintf(&p, "\tx o%d.T\n)\n", j)
+		} else if dot {
+			p.WriteString("type x T\n")
 		} else {
 			fmt.Fprintf(&p, "type x o%d.T\n", j)
 		}
